@@ -197,8 +197,8 @@ def _format_rule_default_yaml(default, include_help=True, comment_rule=True,
                                  text.
     :returns: A string containing a yaml representation of the RuleDefault
     """  # noqa: E501
-    text = ('"%(name)s": %(check_str)s\n' %
-            {'name': default.name,
+    text = ('%(name)s: %(check_str)s\n' %
+            {'name': _quote_check_str(default.name),
              'check_str': _quote_check_str(default.check_str)})
 
     if include_help:
